@@ -134,7 +134,8 @@ def run(ctx):
     rng = ctx.rng
     first = True
     while not ctx.out_of_time():
-        b = Builder(rng, lw, loss_p=float(rng.choice([0.0, 0.3])), param_p=float(rng.choice([0.0, 0.4])))
+        b = Builder(rng, lw, loss_p=float(rng.choice([0.0, 0.3])), param_p=float(rng.choice([0.0, 0.4])),
+                    max_herald_photons=int(rng.choice([2, 2, 2, 3, 5, 12, 1000])))   # any photon number can be heralded
         log: list = []
         directed = False
         try:
